@@ -109,6 +109,9 @@ def _is_sign_adapted(e: ast.AST, signs: set[str], kinds: Kinds, depth=0) -> bool
         for a, b in ((e.left, e.right), (e.right, e.left)):
             if norm(a) in signs or _is_inline_sign(a):
                 return True
+    if isinstance(e, ast.Subscript):
+        # rows picked out of a sign-adapted array
+        return _is_sign_adapted(e.value, signs, kinds, depth + 1)
     if isinstance(e, ast.IfExp) and _reads_maximize(e.test):
         # `-v if maximize else v`
         arms = (e.body, e.orelse)
@@ -179,6 +182,22 @@ def r13_1(ctx: Ctx):
                 obs.append(ctx.ob("R13.1", f, n, detail=f"{what} on fitness inside an arm of a maximize switch (duality checked by R13.2)"))
                 continue
             if all(_is_sign_adapted(x, signs, kinds) for x in fit):
+                # an inline adapter `(F if maximize else -F)` has an orientation: larger-is-better; its dual `(-F if maximize
+                # else F)` smaller-is-better. A selector must take the matching end.
+                ori = None
+                for x in fit:
+                    y = x
+                    while isinstance(y, ast.Subscript):
+                        y = y.value
+                    if isinstance(y, ast.IfExp) and _reads_maximize(y.test):
+                        pol = _reads_maximize(y.test)
+                        plain_when_true = not (isinstance(y.body, ast.UnaryOp) and isinstance(y.body.op, ast.USub))
+                        ori = 1 if (plain_when_true == (pol == 1)) else -1
+                last_ = what.rstrip("()")
+                takes = 1 if last_ in ("argmax", "max", "amax", "nanmax", "nanargmax") else -1 if last_ in ("argmin", "min", "amin", "nanmin", "nanargmin") else 0
+                if ori is not None and takes and ori != takes:
+                    obs.append(ctx.ob("R13.1", f, n, status=VIOLATION, detail=f"{what} on `{norm(fit[0])[:70]}`: the values are oriented so that {'larger' if ori == 1 else 'smaller'} is better, but the selector takes the {'largest' if takes == 1 else 'smallest'}: the WORST individual is selected in both directions"))
+                    continue
                 obs.append(ctx.ob("R13.1", f, n, detail=f"{what} on sign-adapted fitness"))
                 continue
             if f.short in RAW_EXCEPTIONS or (f.parent is not None and f.parent.short in RAW_EXCEPTIONS):
